@@ -132,7 +132,7 @@ CHECKS = {
  "C15": dict(
     cat="proof",
     text="Theorems over R (props/C15.v): the homogeneous cooling step IS the liquid step of an isolated 1x1x1 Snowflake (k_int = k_ext = 0, H_shelf = K A, hl = m cp); the 0D post-nucleation state "
-         "satisfies the two equations defining the Snowflake's direct formulation (depression curve, sensible = latent heat); a simultaneous evaluation of the 2D cooling stencil keeps a radially uniform field uniform when no heat crosses the wall, while for the in-place sweep the implementation performs (model/Sn2D.v, one-step correspondence with _run_2D) radial uniformity is REFUTED by a 3x3 witness over R. PARTIAL: solidification (two Euler forms, O(dt) apart), the thermally-thin "
+         "satisfies the two equations defining the Snowflake's direct formulation (depression curve, sensible = latent heat); a simultaneous evaluation of the 2D cooling stencil keeps a radially uniform field uniform when no heat crosses the wall and every column then IS the 1D cooling step of that column, while for the in-place sweep the implementation performs (model/Sn2D.v, one-step correspondence with _run_2D) radial uniformity is REFUTED by a 3x3 witness over R. PARTIAL: solidification (two Euler forms, O(dt) apart), the thermally-thin "
          "1D->0D limit and the 2D/1D comparison are checked on paired runs only: 0D vs scripted Snowflake (cooling curve 1e-9, nucleation state, solidification time 1 %), 1D vs 2D of equal cross-section "
          "(radial uniformity, nucleation time, evaporative cooling 10 %). The in-place 2D sweep breaks radial uniformity: known finding.",
     ref="6 C15", technique="Rocq proof over R (field identities) + paired-run oracle",
